@@ -197,8 +197,8 @@ class PatchedSumWeights(BinwisePatchwiseArray):
         if sum_weights1.shape[0] != self.num_bins:
             raise ValueError("first dimension of 'sum_weights1/2' must match 'binning'")
 
-        self.sum_weights1 = sum_weights1.astype(np.float64)
-        self.sum_weights2 = sum_weights2.astype(np.float64)
+        self.sum_weights1 = sum_weights1.astype(np.float64, order="C")
+        self.sum_weights2 = sum_weights2.astype(np.float64, order="C")
 
     @classmethod
     def from_hdf(cls, source: Group) -> PatchedSumWeights:
@@ -332,7 +332,7 @@ class PatchedCounts(BinwisePatchwiseArray):
                 "'counts' must have shape (num_bins, num_patches, num_patches)"
             )
 
-        self.counts = counts.astype(np.float64)
+        self.counts = counts.astype(np.float64, order="C")
 
     @classmethod
     def zeros(cls, binning: Binning, num_patches: int, *, auto: bool) -> PatchedCounts:
